@@ -126,13 +126,15 @@ def drive(proxy: Any, svc: Service, call: Call, ob: Observer, *, after_cancel_pr
             tr.append(("header", norm_value(sess.header)))
         done = False
         cb = False
+        it = iter(sess) if kind == "producer" else None
 
         def one(i: int) -> bool:
             """returns True when the stream ended (end/error)."""
             nonlocal cb
             try:
                 if kind == "producer":
-                    ab = sess.tick()
+                    assert it is not None
+                    ab = next(it)
                 else:
                     ab = sess.exchange(make_input(call, i))
                 tr.append(_batch_ev(ab))
@@ -166,7 +168,7 @@ def drive(proxy: Any, svc: Service, call: Call, ob: Observer, *, after_cancel_pr
                 if after_cancel_probe:
                     try:
                         if kind == "producer":
-                            sess.tick()
+                            next(iter(sess))
                         else:
                             sess.exchange(make_input(call, 0))
                         tr.append(("use-after-cancel-accepted",))
